@@ -172,3 +172,28 @@ CHECKS["C18"] = {
     "explanation": "(1) encode/decode identities for a symbolic score/byte per encoding (bit-vectors); (2) conversion tables mutually inverse from Q=10 (symbolic index into the real tables); (3) every finite table entry checked against its analytic definition in exact real arithmetic (QF_NRA, r=10^(1/20)): correct rounding sandwich for the conversion tables, relative error <= 2^-40 for the probability tables, monotonicity; (4) Ephred(ProbE(q))=q and Esolexa(ProbE(s))=s executed on every table point",
     "outside": "a dense sample of probabilities in (0,1) (floating-point log10 of a symbolic value is out of reach); Qsolexa.Encode under Phred-offset encodings",
 }
+
+
+def c10_jobs(tier):
+    jobs = []
+    # index: the finger/pos tables are written through symbolic indices; k is lowered through the exported
+    # kmerindex.MinKmerLen so that the table has 4^k+1 = 17 or 65 cells (k=4 is reached by VerifC10_ForEach/Bits)
+    idx = [(2, 3, 1), (2, 4, 0)] if tier == "quick" else [(2, 3, 1), (2, 4, 0), (2, 4, 1), (2, 5, 0), (3, 4, 0), (3, 5, 0)]
+    for (k, n, chk) in idx:
+        jobs.append({"pkgdir": "index/kmerindex", "func": "VerifC10_Index", "params": {"k": k, "n": n, "wsplit": 0, "check": chk},
+                     "timeout_s": 500 if tier == "quick" else 3000})
+    for n in ([5, 6] if tier == "quick" else [5, 6, 7, 8]):
+        jobs.append({"pkgdir": "index/kmerindex", "func": "VerifC10_ForEach", "params": {"k": 4, "n": n}, "timeout_s": 1500})
+    for k in ([4, 5, 6] if tier == "quick" else [4, 5, 6, 7, 8, 9, 10]):
+        jobs.append({"pkgdir": "index/kmerindex", "func": "VerifC10_Bits", "params": {"k": k, "concretegc": 0}})
+    jobs.append({"pkgdir": "index/kmerindex", "func": "VerifC10_Bits", "params": {"k": 2, "concretegc": 1}, "split_cap": 300})
+    jobs.append({"pkgdir": "index/kmerindex", "func": "VerifC10_Bits", "params": {"k": 3, "concretegc": 1}, "split_cap": 300})
+    return jobs
+
+
+CHECKS["C10"] = {
+    "jobs": c10_jobs,
+    "functions": ["kmerindex.{New,buildKmerTable,Build,KmerPositions,FingerAt,ForEachKmerOf,Check,KmerOf,Format,ComplementOf,GCof}", "util.Pow4"],
+    "explanation": "letters symbolic over {a,c,g,t,n} x case, symbolic word w, symbolic sub-range; the finger/pos tables are written through symbolic indices; specification computed on the letter string",
+    "outside": "index tables for k >= 4 (65k-gate ite/adder networks per query: the build/positions harness runs at k = 2,3 through the exported MinKmerLen; k = 4 is covered for iteration and k = 4..10 for the bit identities), sequences longer than stated, the map-returning conveniences (KmerFrequencies, KmerIndex, StringKmerIndex), GCof as a float of a symbolic count (checked on its integer count; the float division only for k<=3 by case split)",
+}
